@@ -138,12 +138,13 @@ Section S.
   (* libwifi_add_action_detail(detail, data, data_len) *)
   Definition sk_add_detail (d : dobj) (data : list byte) (h : heap) : res (dobj * Z * heap) :=
     if zlen data =? 0 then Done (d, d_len d, h) else
+    if 255 <? d_len d + zlen data then Done (d, - EINVAL, h) else
     let* '(p, h1) := (if d_len d =? 0 then Done (h_malloc sc (zlen data) h)
                       else h_realloc sc (d_ptr d) (zlen data + d_len d) h) in
     match p with
     | None => Done (d, - ENOMEM, h1)
     | Some b =>
-      let l := (d_len d + zlen data) mod 256 in
+      let l := d_len d + zlen data in
       Done ({| d_len := l; d_bytes := d_bytes d ++ data; d_ptr := Some b |}, l, h1)
     end.
   Definition sk_free_action (d : dobj) (h : heap) : res heap := h_free (d_ptr d) h.
